@@ -550,7 +550,9 @@ func (s *ObjectStorage) HasEncodedObject(h plumbing.Hash) (err error) {
 	// in loose.
 	if _, statErr := s.dir.ObjectStat(h); statErr == nil {
 		return nil
-	} else if !os.IsNotExist(statErr) {
+	} else if !os.IsNotExist(statErr) && !errors.Is(statErr, plumbing.ErrObjectNotFound) {
+		// (with ExclusiveAccess the cached object list answers
+		// ErrObjectNotFound rather than a not-exist error)
 		return statErr
 	}
 	if idxErr != nil {
